@@ -137,6 +137,9 @@ class ConcatenatedLazyIndexer(LazyIndexer):
             # If selection is a slice, split it into smaller slices that span individual indexers
             # Start by normalising slice to full first-stage range
             start, stop, stride = keep_head.indices(len(self))
+            if stride > 0:
+                # An empty slice still needs to visit one indexer (that of start) to get an empty chunk
+                stop = max(stop, start)
             chunks = []
             # Step through indexers that overlap with slice (it's guaranteed that some will overlap)
             for ind in range(find_indexer(start), find_indexer(stop) + 1):
